@@ -16,5 +16,5 @@ for p in "$@"; do
   VERIF_REPO="$wt" ./check "$p" --tier "${VERIF_TIER:-quick}" 2>&1 | grep -E "^\[|^OK|^VIOLATION|^KNOWN" | sed 's/^/    /'
 done
 git -C /repo worktree remove --force "$wt"
-rm -rf work/harness_alt_*
+rm -rf "work/harness_alt_$(python3 -c "import hashlib,sys; print(hashlib.sha1(sys.argv[1].encode()).hexdigest()[:8])" "$wt")"
 exit $rc
